@@ -50,6 +50,10 @@ def check(repo, res, tier):
     from . import c11, c19
     borrow(repo, res, tier, c19, {'C19.K', 'C19.F'}, 'C04.T4')
     borrow(repo, res, tier, c11, {'C11.U3'}, 'C04.T5')
+    from . import c09, c05
+    res.rule('C04.T9', 'adopted: a finished task returns its machine to its observation\'s reservation while that '
+                       'exists (C09.R4) -- otherwise the reservation entry is never dropped and the run does not end quiescent')
+    borrow(repo, res, tier, c09, {'C09.R4'}, 'C04.T9')
 
 
 def t1(repo, res, canon, pc, logic):
